@@ -93,8 +93,8 @@ Definition inline_image (image link id punct alt : str) (s : st) : st :=
   if negb (existsb (str_eqb image) (existing s)) then err "image not found" s else
   w (R "\includegraphics{" ++ latex_percent image ++ R "}" ++ punct ++ target id) s.
 Definition lk_with_label (uri label punct : str) : st -> st :=
-  with_url uri (fun u => w (R "\href{" ++ latex_percent u ++ R "}{" ++ latex_escape label ++ R "}" ++ punct)).
-Definition lk_without_label (uri punct : str) : st -> st := with_url uri (fun u => w (R "\url{" ++ latex_percent u ++ R "}" ++ punct)).
+  with_url uri (fun u => w (R "\href{" ++ latex_url u ++ R "}{" ++ latex_escape label ++ R "}" ++ punct)).
+Definition lk_without_label (uri punct : str) : st -> st := with_url uri (fun u => w (R "\url{" ++ latex_url u ++ R "}" ++ punct)).
 Definition paragraph_title (t : str) := w (R "\paragraph{" ++ t ++ R "}" ++ NLs).
 Definition table_of_contents (o : popts) (s : st) : st :=
   let s1 := w (R "\setcounter{tocdepth}{" ++ (if flag "summary" o then R "0" else R "3") ++ R "}" ++ NLs) s in
